@@ -204,6 +204,9 @@ func (c *Chunk) record(chunk pb.Chunk) *tracked {
 		if td != nil {
 			plog.Warningf("removing unclaimed chunks %s", key)
 			c.removeTempDir(td.first)
+			// the stream being replaced is gone together with its temp dir, it
+			// must not stay tracked when the new first chunk is refused below
+			c.resetLocked(key)
 		} else {
 			if c.full() {
 				plog.Errorf("max slot count reached, dropped a chunk %s", key)
